@@ -89,6 +89,38 @@ type pool struct {
 	keys map[string][][]*env.Key
 	// ownSender: for an envelope the adversary built itself, the key whose PRIVATE part it used as sender (0: none)
 	ownSender int
+	// alt: the single-character alteration of a base64 member performed for the current case, as a Gallina
+	// (option alteration): the MODEL decodes the original and the altered characters itself (coq/C02/Text.v)
+	alt string
+	// altItem: (edit, position, junk id) of the current alteration; grp: the open GROUP of alterations of one member of one
+	// envelope pair (same victim, same route): the member's characters go to Coq once per group
+	altItem string
+	grp     *group
+	// the honest envelopes of the current group's pair: every alteration of a group is applied to the SAME captured
+	// envelopes (packing again would give other random members)
+	hkey   string
+	he1    []byte
+	he2    []byte
+}
+
+// group collects the alterations of one base64 member: one Coq case with the member's characters and a list of
+// (edit, position, junk id, recorded UnwrapKey calls, observed result); carried by the LAST record of the group.
+type group struct {
+	key, head string
+	items     []string
+	last      *hx.Record
+}
+
+// flush closes the open group: its last record carries the Coq case of the whole group.
+func (p *pool) flush(tr *hx.Trace) {
+	if p.grp == nil {
+		return
+	}
+
+	g := p.grp
+	p.grp = nil
+	g.last.Coq = strings.Replace(g.head, "@@ALTS@@", "["+strings.Join(g.items, "; ")+"]", 1)
+	tr.Put(g.last)
 }
 
 func newPool() *pool {
@@ -227,9 +259,11 @@ const b64chars = "ABCDEFGHIJKLMNOPQRSTUVWXYZabcdefghijklmnopqrstuvwxyz0123456789
 // lowBitFirst swaps which positions get the single-low-bit replacement (second pass of the thorough tier)
 var lowBitFirst bool
 
-func flipChar(s string, pos int) (string, bool) {
+// flipIndex is the character position Mut.Pos stands for: 0 first, 1 middle, 2 last non-padding, >= 10 absolute
+// (modulo the length).
+func flipIndex(s string, pos int) (int, bool) {
 	if len(s) == 0 {
-		return s, false
+		return 0, false
 	}
 
 	i := 0
@@ -244,40 +278,77 @@ func flipChar(s string, pos int) (string, bool) {
 		}
 	case pos >= 10: // absolute position (modulo the length)
 		i = (pos - 10) % len(s)
-		if s[i] == '=' {
-			return s, false
+	}
+
+	return i, true
+}
+
+// editChars: replacement / inserted characters of the alteration kinds beyond "another alphabet symbol": characters the
+// decoder skips (CR, LF), the padding character, symbols of the standard (non-URL) alphabet, the compact separator,
+// white space.
+var editChars = map[string]byte{"r-nl": '\n', "r-cr": '\r', "r-pad": '=', "r-plus": '+', "r-slash": '/', "r-dot": '.',
+	"r-space": ' ', "i-nl": '\n', "i-cr": '\r', "i-sym": 'Q', "i-pad": '=', "i-dot": '.'}
+
+// editString performs the single-character alteration m on s: returns the altered string, the position and the edit
+// as a Gallina term of coq/C02/Text.v.
+func editString(s string, m Mut) (string, int, string, bool) {
+	i, ok := flipIndex(s, m.Pos)
+	if !ok {
+		return s, 0, "", false
+	}
+
+	switch {
+	case m.Arg == "del":
+		return s[:i] + s[i+1:], i, "EDelete", true
+	case strings.HasPrefix(m.Arg, "i-"):
+		ch := editChars[m.Arg]
+		return s[:i] + string(ch) + s[i:], i, fmt.Sprintf("(EInsert %d)", ch), true
+	case strings.HasPrefix(m.Arg, "r-"):
+		ch := editChars[m.Arg]
+		if s[i] == ch {
+			return s, 0, "", false
 		}
+
+		return s[:i] + string(ch) + s[i+1:], i, fmt.Sprintf("(EReplace %d)", ch), true
+	}
+
+	if s[i] == '=' {
+		return s, 0, "", false
 	}
 
 	c := strings.IndexByte(b64chars, s[i])
 	if c < 0 {
-		return s, false
+		return s, 0, "", false
 	}
 
 	// at the last position choose a neighbour that differs in the low bits only (exercises the lenient decoder),
 	// elsewhere any other symbol
 	n := b64chars[(c+1)%64]
-	if pos == 2 || (pos >= 10 && pos%2 == 1) != lowBitFirst {
+	if m.Pos == 2 || (m.Pos >= 10 && m.Pos%2 == 1) != lowBitFirst {
 		n = b64chars[c^1] // single low bit
 	}
 
-	return s[:i] + string(n) + s[i+1:], true
+	return s[:i] + string(n) + s[i+1:], i, fmt.Sprintf("(EReplace %d)", n), true
 }
 
-// classify compares the decoded bytes of a field before/after: "same", "changed" or "bad" (does not decode).
-func classify(enc *base64.Encoding, old, new string) string {
-	o, err1 := enc.DecodeString(old)
-	n, err2 := enc.DecodeString(new)
-
-	if err2 != nil {
-		return "bad"
+// alter performs the case's single-character alteration on a base64 member of the first envelope and records it for
+// the model: (mkalt legacy member <characters of the original member> edit position junk-id).  What the alteration
+// means (same bytes / other bytes / undecodable) is decided by the model, not here.
+func (p *pool) alter(c Case, legacy bool, member, old string) (string, bool) {
+	nv, i, ed, ok := editString(old, c.Mut)
+	if !ok {
+		return old, false
 	}
 
-	if err1 == nil && bytes.Equal(o, n) {
-		return "same"
+	chars := make([]int, len(old))
+	for j := range old {
+		chars[j] = int(old[j])
 	}
 
-	return "changed"
+	p.alt = fmt.Sprintf("(Some (%v, %s, %s))", legacy, member, hx.CoqNList(chars))
+	p.altItem = fmt.Sprintf("%s %d%%nat %d", ed, i, 500+c.Mut.Idx*10000+c.Mut.Pos)
+
+	return nv, true
 }
 
 // ---------- one case ----------
@@ -347,13 +418,23 @@ func (p *pool) run(kind string, c Case, tr *hx.Trace) {
 		}
 	}
 
-	e1, err1 := p.pack(c.H1)
-	e2, err2 := p.pack(c.H2)
+	var e1, e2 []byte
+
+	var err1, err2 error
+
+	if hk := fmt.Sprintf("%+v|%+v", c.H1, c.H2); c.Mut.Kind == "flip" && p.hkey == hk {
+		e1, e2 = p.he1, p.he2
+	} else {
+		e1, err1 = p.pack(c.H1)
+		e2, err2 = p.pack(c.H2)
+		p.hkey, p.he1, p.he2 = hk, e1, e2
+	}
 
 	if err1 != nil || err2 != nil {
 		// the generator only asks for configurations that pack on the unchanged tree
 		rec.Oracle, rec.Sig, rec.Detail = "fail", "honest-pack-failed:"+c.H1.Packer, fmt.Sprint(err1, " / ", err2)
 		rec.Class = "pack-failed"
+		p.flush(tr)
 		tr.Put(rec)
 
 		return
@@ -361,6 +442,7 @@ func (p *pool) run(kind string, c Case, tr *hx.Trace) {
 
 	lowBitFirst = c.Mut.Kind == "flip" && c.Mut.Arg == "alt"
 	p.ownSender = 0
+	p.alt = "None"
 	mutated, coqE, own, err := p.mutate(c, e1, e2)
 	lowBitFirst = false
 
@@ -469,8 +551,6 @@ func (p *pool) run(kind string, c Case, tr *hx.Trace) {
 		up = "(Some " + coqPacker(c.H1.Packer) + ")"
 	}
 
-	rec.Coq = fmt.Sprintf("{| c_h1 := %s; c_h2 := %s; c_E := (fun w1 w2 => %s); c_up := %s; c_party := %s; c_att := %s; c_obs := %s |}",
-		p.coqHEnv(c.H1, 100000), p.coqHEnv(c.H2, 100100), coqE, up, hx.CoqNList(p.partyKeys(c.Party)), r.Attempts, cu)
 	rec.Observed = r
 	rec.Class = fmt.Sprintf("%s/%s/%s/n=%d/%s/%s/%d/%d/%s/p%d/%s", c.H1.Packer, c.H1.kt(), c.H1.Enc, len(c.H1.Rcpts), c.Mut.Kind,
 		c.Mut.Field, c.Mut.Idx, c.Mut.Pos, c.Mut.Arg, c.Party, r.Out)
@@ -482,6 +562,30 @@ func (p *pool) run(kind string, c Case, tr *hx.Trace) {
 		rec.Dist = append(rec.Dist, "panic:"+c.Mut.Kind+"/"+c.Mut.Field+"/"+c.Mut.Arg)
 	}
 
+	if p.alt != "None" {
+		// one alteration of a base64 member: joins the group of its member (same pair, victim, route)
+		key := fmt.Sprintf("%+v|%+v|%s|%d|%d|%s", c.H1, c.H2, c.Mut.Field, c.Mut.Idx, c.Party, c.Via)
+		if p.grp != nil && p.grp.key != key {
+			p.flush(tr)
+		}
+
+		if p.grp == nil {
+			p.grp = &group{key: key, head: fmt.Sprintf("{| c_h1 := %s; c_h2 := %s; c_E := (fun w1 w2 => w1); c_alt := %s; c_alts := @@ALTS@@; c_up := %s; c_party := %s; c_att := None; c_obs := URej |}",
+				p.coqHEnv(c.H1, 100000), p.coqHEnv(c.H2, 100100), p.alt, up, hx.CoqNList(p.partyKeys(c.Party)))}
+		} else {
+			tr.Put(p.grp.last) // earlier members of the group: direct oracle only, the group's case covers them
+		}
+
+		p.grp.items = append(p.grp.items, fmt.Sprintf("mkao %s %s %s", p.altItem, r.Attempts, cu))
+		p.grp.last = rec
+
+		return
+	}
+
+	p.flush(tr)
+
+	rec.Coq = fmt.Sprintf("{| c_h1 := %s; c_h2 := %s; c_E := (fun w1 w2 => %s); c_alt := None; c_alts := []; c_up := %s; c_party := %s; c_att := %s; c_obs := %s |}",
+		p.coqHEnv(c.H1, 100000), p.coqHEnv(c.H2, 100100), coqE, up, hx.CoqNList(p.partyKeys(c.Party)), r.Attempts, cu)
 	tr.Put(rec)
 }
 
@@ -532,7 +636,6 @@ func (p *pool) mutateJWE(c Case, e1, e2 []byte) ([]byte, string, bool, error) {
 	m := c.Mut
 	n := len(r1.Recipients)
 	out := r1.Clone()
-	rc := base64.RawURLEncoding
 	h := c.H1
 	victim2 := p.keys[h.kt()][c.Party][1] // the victim party's second key (slot 1)
 
@@ -548,68 +651,43 @@ func (p *pool) mutateJWE(c Case, e1, e2 []byte) ([]byte, string, bool, error) {
 
 	switch m.Kind {
 	case "flip":
-		var cl string
-
 		switch m.Field {
 		case "protected":
-			nv, ok := flipChar(r1.Protected, m.Pos)
+			nv, ok := p.alter(c, false, "MProt", r1.Protected)
 			if !ok {
 				return nil, "", false, fmt.Errorf("cannot flip")
 			}
 
 			out.Protected = nv
 
-			if classify(rc, r1.Protected, nv) == "bad" {
-				return out.Bytes(), "WJwe (set_prot None (J w1))", false, nil
-			}
-			// the authenticated string changed (whatever it decodes to): another serialization variant
-			return out.Bytes(), "WJwe (set_prot (Some (p_set_var 7 (P w1))) (J w1))", false, nil
+			return out.Bytes(), "w1", false, nil
 		case "iv", "ciphertext", "tag":
 			old := map[string]*string{"iv": &out.IV, "ciphertext": &out.Ciphertext, "tag": &out.Tag}[m.Field]
 			if *old == "" {
 				// an empty field (empty payload): insert a symbol instead
 				*old = "AA"
-				cl = "changed"
-			} else {
-				nv, ok := flipChar(*old, m.Pos)
-				if !ok {
-					return nil, "", false, fmt.Errorf("cannot flip")
-				}
+				set := map[string]string{"iv": "set_iv", "ciphertext": "set_ct", "tag": "set_tag"}[m.Field]
 
-				cl = classify(rc, *old, nv)
-				*old = nv
+				return out.Bytes(), fmt.Sprintf("WJwe (%s %s (J w1))", set, junk(c)), false, nil
 			}
 
-			switch cl {
-			case "bad":
-				return out.Bytes(), "WBad", false, nil
-			case "same":
-				return out.Bytes(), "w1", false, nil
-			}
-
-			set := map[string]string{"iv": "set_iv", "ciphertext": "set_ct", "tag": "set_tag"}[m.Field]
-
-			return out.Bytes(), fmt.Sprintf("WJwe (%s %s (J w1))", set, junk(c)), false, nil
-		case "ek":
-			nv, ok := flipChar(r1.Recipients[m.Idx].EncryptedKey, m.Pos)
+			nv, ok := p.alter(c, false, map[string]string{"iv": "MIv", "ciphertext": "MCt", "tag": "MTag"}[m.Field], *old)
 			if !ok {
 				return nil, "", false, fmt.Errorf("cannot flip")
 			}
 
-			cl = classify(rc, r1.Recipients[m.Idx].EncryptedKey, nv)
-			out.Recipients[m.Idx].EncryptedKey = nv
+			*old = nv
 
-			switch cl {
-			case "bad":
-				return out.Bytes(), "WBad", false, nil
-			case "same":
-				return out.Bytes(), "w1", false, nil
+			return out.Bytes(), "w1", false, nil
+		case "ek":
+			nv, ok := p.alter(c, false, fmt.Sprintf("(MEk %d%%nat)", m.Idx), r1.Recipients[m.Idx].EncryptedKey)
+			if !ok {
+				return nil, "", false, fmt.Errorf("cannot flip")
 			}
 
-			l := entries()
-			l[m.Idx] = fmt.Sprintf("mkrcp (r_hdr (R w1 %d)) %s", m.Idx, junk(c))
+			out.Recipients[m.Idx].EncryptedKey = nv
 
-			return out.Bytes(), fmt.Sprintf("WJwe (set_recs %s (J w1))", recsCoq(l)), false, nil
+			return out.Bytes(), "w1", false, nil
 		case "aad":
 			out.AAD = "QUJD"
 			if out.Compact {
@@ -1710,43 +1788,31 @@ func (p *pool) mutateLegacy(c Case, e1, e2 []byte) ([]byte, string, bool, error)
 	case "flip":
 		switch m.Field {
 		case "protected":
-			nv, ok := flipChar(r1.Protected, m.Pos)
+			nv, ok := p.alter(c, true, "MProt", r1.Protected)
 			if !ok {
 				return nil, "", false, fmt.Errorf("cannot flip")
 			}
 
 			out.Protected = nv
-			if classify(uc, r1.Protected, nv) == "bad" {
-				return out.Bytes(), "WLeg (l_set_prot None (L w1))", false, nil
-			}
 
-			return out.Bytes(), "WLeg (l_set_prot (Some (lp_set_var 7 (LP w1))) (L w1))", false, nil
+			return out.Bytes(), "w1", false, nil
 		case "iv", "ciphertext", "tag":
 			old := map[string]*string{"iv": &out.IV, "ciphertext": &out.CipherText, "tag": &out.Tag}[m.Field]
-
-			cl := "changed"
 			if *old == "" {
 				*old = "AAAA"
-			} else {
-				nv, ok := flipChar(*old, m.Pos)
-				if !ok {
-					return nil, "", false, fmt.Errorf("cannot flip")
-				}
+				set := map[string]string{"iv": "l_set_iv", "ciphertext": "l_set_ct", "tag": "l_set_tag"}[m.Field]
 
-				cl = classify(uc, *old, nv)
-				*old = nv
+				return out.Bytes(), fmt.Sprintf("WLeg (%s %s (L w1))", set, junk(c)), false, nil
 			}
 
-			switch cl {
-			case "bad":
-				return out.Bytes(), "WBad", false, nil
-			case "same":
-				return out.Bytes(), "w1", false, nil
+			nv, ok := p.alter(c, true, map[string]string{"iv": "MIv", "ciphertext": "MCt", "tag": "MTag"}[m.Field], *old)
+			if !ok {
+				return nil, "", false, fmt.Errorf("cannot flip")
 			}
 
-			set := map[string]string{"iv": "l_set_iv", "ciphertext": "l_set_ct", "tag": "l_set_tag"}[m.Field]
+			*old = nv
 
-			return out.Bytes(), fmt.Sprintf("WLeg (%s %s (L w1))", set, junk(c)), false, nil
+			return out.Bytes(), "w1", false, nil
 		case "iv-short": // DESIGN 11 #17: a nonce of the wrong length (panic in chacha20poly1305: C03's subject)
 			out.IV = uc.EncodeToString([]byte{1, 2, 3, 4, 5})
 			return out.Bytes(), "WLeg (l_set_iv (Junk 5) (L w1))", false, nil
@@ -1811,7 +1877,7 @@ func (p *pool) mutateLegacy(c Case, e1, e2 []byte) ([]byte, string, bool, error)
 			np.Recipients[m.Idx].Header.KID = base58.Encode(victim2.Bytes)
 			l[m.Idx] = fmt.Sprintf("mklrcp %d (l_sender (LR w1 %d)) (l_iv (LR w1 %d)) (l_ek (LR w1 %d))", victim2.Name, m.Idx, m.Idx, m.Idx)
 		case "ek-flip":
-			nv, _ := flipChar(p1.Recipients[m.Idx].EncryptedKey, 1)
+			nv, _, _, _ := editString(p1.Recipients[m.Idx].EncryptedKey, Mut{Pos: 1})
 			np.Recipients[m.Idx].EncryptedKey = nv
 			l[m.Idx] = fmt.Sprintf("mklrcp (l_kid (LR w1 %d)) (l_sender (LR w1 %d)) (l_iv (LR w1 %d)) (Junk 6)", m.Idx, m.Idx, m.Idx)
 		case "alg-swap":
@@ -1903,6 +1969,8 @@ func (p *pool) coReencLegacy(c Case, r1 *env.RawLegacy, p1 *env.LegacyProt) ([]b
 
 // ---------- generators ----------
 
+var editArgs = []string{"r-nl", "r-cr", "r-pad", "r-plus", "r-slash", "r-dot", "r-space", "i-nl", "i-cr", "i-sym", "i-pad", "i-dot", "del"}
+
 func (p *pool) gen(tr *hx.Trace, rng *hx.Rng, thorough bool) {
 	type pair struct{ h1, h2 HEnv }
 
@@ -1978,7 +2046,7 @@ func (p *pool) gen(tr *hx.Trace, rng *hx.Rng, thorough bool) {
 
 		// every base64 field: first / middle / last symbol, seeded positions, and EVERY position on a sample of the
 		// pairs (quick: 3 pairs, thorough: all)
-		for _, f := range []string{"protected", "iv", "ciphertext", "tag"} {
+		for fi, f := range []string{"protected", "iv", "ciphertext", "tag"} {
 			for pos := 0; pos < 3; pos++ {
 				emit("flip", pr, Mut{Kind: "flip", Field: f, Pos: pos}, victim, via)
 			}
@@ -1987,10 +2055,34 @@ func (p *pool) gen(tr *hx.Trace, rng *hx.Rng, thorough bool) {
 				emit("flip", pr, Mut{Kind: "flip", Field: f, Pos: 10 + rng.Intn(4000)}, victim, via)
 			}
 
+			// the other single-character alterations: replacement by a character the decoder skips (CR / LF), by the
+			// padding character, by a symbol of the standard alphabet, by the compact separator, by a blank; insertion
+			// of a skipped character (same bytes!), of an alphabet symbol, of padding; deletion
+			for ai, a := range editArgs {
+				if (ai+pi+fi)%2 == 0 {
+					emit("edit", pr, Mut{Kind: "flip", Field: f, Pos: (ai + pi) % 3, Arg: a}, victim, via)
+				} else {
+					emit("edit", pr, Mut{Kind: "flip", Field: f, Pos: 10 + rng.Intn(4000), Arg: a}, victim, via)
+				}
+			}
+
 			if thorough || pi%20 == 5 {
 				lim := map[string]int{"protected": 900, "iv": 32, "ciphertext": 120, "tag": 44}[f]
 				for q := 0; q < lim; q++ {
 					emit("flip-all", pr, Mut{Kind: "flip", Field: f, Pos: 10 + q}, victim, via)
+				}
+
+				if f == "tag" || thorough {
+					// the other kinds of alteration at every position
+					for _, a := range editArgs {
+						if !thorough && (a == "r-cr" || a == "r-slash" || a == "r-space" || a == "i-cr" || a == "i-pad" || a == "i-dot" || a == "r-dot") {
+							continue
+						}
+
+						for q := 0; q < lim; q++ {
+							emit("edit-all", pr, Mut{Kind: "flip", Field: f, Pos: 10 + q, Arg: a}, victim, via)
+						}
+					}
 				}
 
 				if thorough {
@@ -2007,6 +2099,11 @@ func (p *pool) gen(tr *hx.Trace, rng *hx.Rng, thorough bool) {
 
 		if !legacy {
 			for i := 0; i < n; i++ {
+				for k := 0; k < 3; k++ {
+					a := editArgs[(pi+i*3+k)%len(editArgs)]
+					emit("edit", pr, Mut{Kind: "flip", Field: "ek", Idx: i, Pos: (pi + k) % 3, Arg: a}, victim, via)
+				}
+
 				for pos := 0; pos < 3; pos++ {
 					emit("flip", pr, Mut{Kind: "flip", Field: "ek", Idx: i, Pos: pos}, victim, via)
 					if n > 1 && pos == 1 {
@@ -2401,6 +2498,7 @@ func main() {
 
 		_ = json.Unmarshal(b, &c)
 		p.run("replay", c.Case, tr)
+		p.flush(tr)
 
 		return
 	}
@@ -2409,4 +2507,5 @@ func main() {
 	p.gen(tr, hx.NewRng(args.Seed), args.Tier == "thorough")
 	p.genBuilt(tr, hx.NewRng(args.Seed+99), args.Tier == "thorough")
 	p.genBuiltLegacy(tr)
+	p.flush(tr)
 }
